@@ -184,8 +184,8 @@ func probeEmbeddedChild(r *lib.Run) {
 
 func TestC10(t *testing.T) {
 	r := lib.Start("C10", "exploration")
-	rp := &reporter{r: r, seen: map[string]int{}}
-	n := r.N(200, 5600)
+	rp := &reporter{r: r, seen: map[string]int{}, hung: map[string]bool{}}
+	n := r.N(200, 3000)
 	r.Cases(n, 0, func(idx int) {
 		if idx%10 == 9 {
 			checkChain(rp, idx, lib.Rng("C10/chain", uint64(idx)))
